@@ -390,6 +390,15 @@ func runSIZE(c *Ctx) {
 				if !ok {
 					continue
 				}
+				// *m = saved: the whole Mast overwritten through a pointer — size (with root, height and the
+				// thresholds) set without the entry change it counts
+				if ir.IsPtrToNamed(st.Addr.Type(), "Mast") && fn.Pkg != nil && fn.Pkg.Pkg.Path() == ir.MastPath {
+					if _, local := ir.ResolveCell(st.Addr).(*ssa.Alloc); !local {
+						c.Violation(fn, P.InstrPos(st), "Mast overwritten as a whole",
+							"the tree's bookkeeping (size, root, height, thresholds) is replaced wholesale by a saved copy: a shallow snapshot does not undo what was changed inside nodes that are edited in place (an already-modified leaf), so size and root go back while the entry stays removed or inserted — the persisted Size no longer counts the reachable entries")
+						continue
+					}
+				}
 				fa, ok := st.Addr.(*ssa.FieldAddr)
 				if !ok || !ir.IsPtrToNamed(fa.X.Type(), "Mast") || ir.FieldName(fa.X.Type(), fa.Field) != "size" {
 					continue
